@@ -543,7 +543,7 @@ struct Engine
                     fail("rotated-with-n1", "a rotated file (" + name + ") was produced although the file-count limit is 1");
             }
         }
-        if ((is("C08") || is("C10")) && !cur_X.empty() && !fault_mode)
+        if (!cur_X.empty() && (is("C08") || (is("C10") && !fault_mode)))
             check_ordering_clause(b);
         if (take_snapshots)
             snapshot_crash(b, 0, nullptr);
@@ -1391,8 +1391,59 @@ Result run_single(const FPlan &P, bool crash_mode, bool fault_mode, bool collect
 
 Result run_history(const FPlan &plan)
 {
+    if (plan.prop == "C08") {
+        // fault-free pass with the ordering clause checked at every boundary ...
+        bool has_fault = false;
+        for (auto &op : plan.ops)
+            if (op.fault_call >= 0)
+                has_fault = true;
+        if (has_fault)
+            return run_single(plan, false, true, false, nullptr);
+        std::vector<std::array<int, 3>> sites;
+        Result r = run_single(plan, true, false, true, &sites);
+        if (!r.ok || !plan.enumerate)
+            return r;
+        // ... then every single failure to create a file (the compressed file cannot be created:
+        // the uncompressed one must stay)
+        long fault_runs = 0;
+        static const int errs[] = { EACCES, ENOSPC, EMFILE };
+        // bounded: histories of modest size, at most three sites, one errno each (rotating)
+        long total = 0;
+        for (auto &op : plan.ops)
+            if (op.k == "write")
+                total += op.n;
+        int used = 0;
+        for (auto &st : sites) {
+            if (st[1] != sim::FS_OPEN_CREATE || total > 200000 || used >= 3)
+                continue;
+            used++;
+            for (int err : { errs[(st[0] + st[2] + used) % 3] }) {
+                FPlan q = plan;
+                q.enumerate = false;
+                q.ops[st[0]].fault_call = st[1];
+                q.ops[st[0]].fault_nth = st[2];
+                q.ops[st[0]].fault_errno = err;
+                Result fr = run_single(q, false, true, false, nullptr);
+                fault_runs++;
+                if (!fr.ok) {
+                    fr.at_op = st[0];
+                    fr.fault_call = st[1];
+                    fr.fault_nth = st[2];
+                    fr.fault_errno = err;
+                    fr.msg = std::string("with ") + sim::fs_call_name(st[1]) + " #" + std::to_string(st[2]) + " of operation "
+                            + std::to_string(st[0]) + " failing with errno " + std::to_string(err) + " (" + strerror(err)
+                            + "): " + fr.msg;
+                    fr.fault_runs = fault_runs;
+                    fr.probes = r.probes;
+                    return fr;
+                }
+            }
+        }
+        r.fault_runs = fault_runs;
+        return r;
+    }
     if (plan.prop != "C10")
-        return run_single(plan, plan.prop == "C08", false, false, nullptr);
+        return run_single(plan, false, false, false, nullptr);
 
     bool has_crash = false, has_fault = false;
     for (auto &op : plan.ops) {
